@@ -27,7 +27,9 @@ func TestZZVerifRun(t *testing.T) {
 	ctx := []byte("verif")
 	tr := 4000
 	type cfg struct{ n, length, chunk uint }
-	cfgs := []cfg{{2, 4, 0}, {0, 4, 2}, {2, 1, 1}, {2, 4, 2}, {3, 4, 3}, {2, 5, 5}, {2, 7, 10}, {5, 11, 3}, {2, 1 + uint(rng.Intn(12)), 1 + uint(rng.Intn(6))}}
+	cfgs := []cfg{{2, 4, 0}, {0, 4, 2}, {2, 1, 1}, {2, 4, 2}, {3, 4, 3}, {2, 5, 5}, {2, 7, 10}, {5, 11, 3}, {2, 1 + uint(rng.Intn(12)), 1 + uint(rng.Intn(6))},
+		{8, 4, 2},      // eight aggregators
+		{2, 2048, 16}}  // 128 gadget calls
 	if thorough {
 		cfgs = append(cfgs, cfg{255, 4, 3}, cfg{2, 100, 10})
 		for i := 0; i < 10; i++ {
@@ -55,7 +57,7 @@ func TestZZVerifRun(t *testing.T) {
 			t.Fatal(err)
 		}
 		f2 := newFlpHistogram(c.length, c.chunk)
-		s := &zzverifrun.Session[uint64, []uint64, Vec, Fp, *Fp]{Tr: tr, Inst: "histogram", Length: int(c.length), Pub: s0, Raw: &raw, Encode: f2.Encode, NAlter: 1,
+		s := &zzverifrun.Session[uint64, []uint64, Vec, Fp, *Fp]{Tr: tr, Inst: "histogram", Length: int(c.length), Pub: s0, Raw: &raw, Encode: f2.Encode, NAlter: nalter(c.length),
 			MeasJSON: func(m uint64) interface{} { return int(m) },
 			AggVec: func(a *[]uint64) []*big.Int {
 				x := make([]*big.Int, len(*a))
@@ -72,4 +74,11 @@ func TestZZVerifRun(t *testing.T) {
 		s.Honest = append(s.Honest, uint64(c.length), uint64(c.length)+1+uint64(rng.Intn(1000))) // not bucket indices
 		zzverifrun.Run(s, rng, emit)
 	}
+}
+
+func nalter(encLen uint) int {
+	if encLen > 400 {
+		return 0
+	}
+	return 1
 }
